@@ -11,4 +11,7 @@ def genTf : TfProg :=
   ⟨tfHandleEvent, tfCheckChanged, tfReset, tfInsertStringAtCursor, tfCursorTo, tfDeleteCharRightOfCursor,
    tfDeleteCharLeftOfCursor, tfDeleteCursorToEndOfLine, tfInsertLoop, tfGraphemeCount⟩
 
+/-- The regenerated textinput. -/
+def genTi : TiProg := ⟨tiSetContent, tiUpdate, tiResegment⟩
+
 end VaxisModel.Model.EdGen
